@@ -10,7 +10,7 @@ class Store:
         self.objects = {}        # key -> bytes
         self.log = []            # (method, key, status, size)
         self.puts = 0; self.gets = 0
-        self.fail_put_once = set(); self.fail_put_always = set(); self.fail_get_once = set(); self.always_keys = set()
+        self.fail_put_once = set(); self.fail_put_always = set(); self.fail_get_once = set(); self.always_keys = set(); self.fail_get_suffix = set()   # GETs of objects whose key ends so fail every time
         self.lock = threading.Lock()
 
 def decode_aws_chunked(body):
@@ -67,7 +67,7 @@ def make_handler(store):
                 return self._send(200, body)
             with store.lock:
                 store.gets += 1; k = store.gets
-                fail = k in store.fail_get_once
+                fail = k in store.fail_get_once or any(key.endswith(sfx) for sfx in store.fail_get_suffix)
                 store.fail_get_once.discard(k)
                 data = store.objects.get(key)
                 store.log.append(("GET", key, 500 if fail else (200 if data is not None else 404), len(data or b"")))
